@@ -184,11 +184,12 @@ def _selftest_tables(rt, trace, invariant):
     L = open(trace).read().splitlines()
     if len(L) < 10:
         return out
-    idx = [i for i in range(1, len(L)) if '"res":"accept"' in L[i]]
+    pat, rep = ('"res":"accept"', '"res":"refuse"') if invariant == "InvC15" else ('"dec":"equal"', '"dec":"error"')
+    idx = [i for i in range(1, len(L)) if pat in L[i]]
     if idx:
         i = idx[len(idx) // 2]
         M = list(L)
-        M[i] = M[i].replace('"res":"accept"', '"res":"refuse"')
+        M[i] = M[i].replace(pat, rep)
         p = trace + ".corrupt"
         open(p, "w").write("\n".join(M) + "\n")
         r = rt.tlc_trace("TablesTrace.tla", TRACE_CFG + "INVARIANT %s\n" % invariant, p, view="all", timeout=1200)
@@ -247,7 +248,7 @@ def plan_C15(ctx, rt):
         rt.log("TOOL-ERROR: TLC did not complete on MCTables (rc=%s)" % mc["rc"])
         return 2
     ncases = sum(1 for l in open(cases) if json.loads(l)["t"] in C15_TABLES)
-    inst = 1 if tier == "quick" else 12
+    inst = 2 if tier == "quick" else 12
     res = _run_tables(ctx, rt, binp, cases, C15_TABLES, dev, inst, "tables", "InvC15")
     if res is None:
         return 2
@@ -432,7 +433,16 @@ def _selftest_hist(rt, trace):
         out["corrupted_decrypt_rejected"] = (not r["accepted"]) and not r["toolerr"]
         os.remove(p)
     # (b) a commit delivery that advanced a client dropped from the log
-    idx = [i for i in range(1, len(L)) if '"op":"DeliverK"' in L[i] and '"res":"Commit"' in L[i]]
+    idx = []
+    ep = {}
+    for i in range(1, len(L)):
+        d = json.loads(L[i])
+        if d["op"] == "Reset":
+            ep = {}
+        for q in (d.get("posts") or ([{"c": d["c"], "post": d["post"]}] if "post" in d else [])):
+            if d["op"] == "DeliverK" and d.get("res") == "Commit" and ep.get(q["c"]) == d["k"] - 1 and q["post"].get("ep") == d["k"]:
+                idx.append(i)   # this delivery really moved the client one epoch forward
+            ep[q["c"]] = q["post"].get("ep")
     if idx:
         i = idx[len(idx) // 3]
         M = [x for j, x in enumerate(L) if j != i]
@@ -489,11 +499,16 @@ def plan_C17(ctx, rt):
     states += mc["states"]
     transitions += mc["transitions"]
     # (A2) the history machine: as built (excused form), intended (plain form), and a witness that the finding is reachable
-    me, lb = (3, 1) if tier == "quick" else (4, 2)
     mdev = [d for d in dev if d == "HintByHashOnly"]
-    runs = [("asbuilt-samecontent", _media_mc_cfg(mdev, True, me, lb, ["InvC17", "LastOK"]), False),
-            ("intended-samecontent", _media_mc_cfg([], True, me, lb, ["InvC17", "MembersDecryptPlain", "LastOK"]), False),
-            ("asbuilt-distinctcontent", _media_mc_cfg(mdev, False, me, lb, ["InvC17", "MembersDecryptPlain", "LastOK"]), False)]
+    full = ["InvC17", "LastOK"]
+    plain = ["InvC17", "MembersDecryptPlain", "LastOK"]
+    runs = [("asbuilt-samecontent-e3-w1", _media_mc_cfg(mdev, True, 3, 1, full), False),
+            ("intended-samecontent-e3-w1", _media_mc_cfg([], True, 3, 1, plain), False)]
+    if tier != "quick":
+        runs += [("asbuilt-distinctcontent-e3-w1", _media_mc_cfg(mdev, False, 3, 1, plain), False),
+                 ("asbuilt-samecontent-e3-w2", _media_mc_cfg(mdev, True, 3, 2, full), False),
+                 ("asbuilt-onefile-e4-w2", _media_mc_cfg(mdev, True, 4, 2, plain, files=1), False),
+                 ("intended-onefile-e4-w1", _media_mc_cfg([], True, 4, 1, plain, files=1), False)]
     if mdev:
         runs.append(("witness-HintByHashOnly", _media_mc_cfg(mdev, True, 3, 1, ["MembersDecryptPlain"]), True))
     for name, body, expect_violation in runs:
@@ -552,7 +567,7 @@ def plan_C17(ctx, rt):
     selftest = {}
     if tier == "thorough" and not viol and last_trace:
         selftest = _selftest_hist(rt, last_trace)
-        selftest.update(_selftest_tables(rt, res["trace"], "InvC17") if False else {})
+        selftest.update(_selftest_tables(rt, res["trace"], "InvC17"))
         if selftest and not all(selftest.values()):
             viol.append(("anti-vacuity self-test failed: %s" % selftest, last_trace))
     tot = {k: sum(s.get(k, 0) for s in hstats) for k in ("decrypts", "member_ok", "nonmember_refused", "tampered_refused", "rollbacks", "late_echo",
